@@ -5,6 +5,7 @@ from analysis import terms as T, cfg
 from analysis import chessref as R
 from analysis.effects import upd_entries, xor_terms, strip_casts, subterms, index_chain, fields_read
 
+THOROUGH_CONFIGS = ['release', 'nobmi2', 'engine-alone']
 LEVEL = "other"
 DECIDED = ("R1 all 794 key words (768 piece + 16 castling + 8 en-passant + 2 turn) are non-zero and pairwise distinct, and the accessors index "
            "[color][pos][piece] / [rights] / [file] / [color]; R2 every mutation of the piece/colour bitboards of a Board is paired, on the same path, "
